@@ -16,6 +16,8 @@ pub struct Cfg<const NT: usize, const NV: usize> {
     pub req_eid: u8,
     pub resp_eid: u8,
     pub sel: u8,
+    /// install the UUID before (true) or after (false) the EIDs / selector are stored
+    pub uuid_first: bool,
 }
 
 impl<const NT: usize, const NV: usize> Cfg<NT, NV> {
@@ -37,18 +39,24 @@ impl<const NT: usize, const NV: usize> Cfg<NT, NV> {
         let req_eid = s.u8();
         let resp_eid = s.u8();
         let sel = s.u8();
-        Cfg { addr, types, nt, vend, nv, uuid, set_uuid, req_eid, resp_eid, sel }
+        let uuid_first = s.bool();
+        Cfg { addr, types, nt, vend, nv, uuid, set_uuid, req_eid, resp_eid, sel, uuid_first }
     }
 
-    /// Build the context and put it into the drawn state.
+    /// Build the context and put it into the drawn state. The UUID is installed
+    /// either before or after the cells are written (symbolic choice): the
+    /// reachable state must not depend on that order.
     pub fn build(&self) -> MCTPSMBusContext<'_> {
         let mut ctx = MCTPSMBusContext::new(self.addr, &self.types[..self.nt], &self.vend[..self.nv]);
-        if self.set_uuid {
+        if self.set_uuid && self.uuid_first {
             ctx.set_uuid(&self.uuid);
         }
         ctx.get_request().set_eid(self.req_eid);
         ctx.get_response().set_eid(self.resp_eid);
         ctx.verif_set_vendor_id_selector(self.sel);
+        if self.set_uuid && !self.uuid_first {
+            ctx.set_uuid(&self.uuid);
+        }
         ctx
     }
 
